@@ -256,6 +256,23 @@ for ty in TYPES:
                  "Sequence('x', %r, type=%r): the %s of ambiguity code %s is not the equal-weight average of %s"
                  % (code, ty, bad, code, "/".join(members) or "nothing"), type=ty, sequence=code, observable=bad)
 
+# the documented *density* attribute of a Molecule ("the estimated molecule density")
+for ty, s0 in (("aa", "ACDK"), ("dna", "ACGT"), ("rna", "ACGU")):
+    probe = fasta.Sequence("probe", s0, type=ty)
+    expect = probe.mass / avogadro_number / probe.cell_volume * 1e24
+    try:
+        d = probe.density
+    except AttributeError as e:
+        fail("C18:density-attribute",
+             "fasta.Sequence('probe', %r, type=%r).density raises AttributeError: the Molecule docstring lists *density* "
+             "(\"the estimated molecule density\") among the attributes and __init__ takes a density argument, but no "
+             "density attribute is ever set; mass/(N_A V 1e-24) = %r" % (s0, ty, expect), type=ty, sequence=s0,
+             observable="density")
+    else:
+        if not close(d, expect):
+            fail("C18:density-attribute:value", "fasta.Sequence('probe', %r, type=%r).density = %r is not mass/(N_A V 1e-24) = %r"
+                 % (s0, ty, d, expect), type=ty, sequence=s0, observable="density")
+
 for tname in ("NUCLEIC_ACID_COMPONENTS", "CARBOHYDRATE_RESIDUES", "LIPIDS"):
     for name, m in getattr(fasta, tname).items():
         cases.append("(COther %s %s %s)" % (cstr(tname), cstr(name), mol_term(m)))
